@@ -22,7 +22,7 @@ VisitVerdict(e) ==
  \cup {"odd_answer_taken_for_stop_" \o o : o \in {o \in Orders : \E k \in 1..Len(e.orders[o].odd) : e.orders[o].odd[k] # Append(exp(o), <<0, 0>>)}}
  \* pruning: the k-th callback removes the subtree rooted at `cut` (an operand of the node it was called for); its nodes that had
  \* not been reached yet (they come after position k in the defining order) get no callback, everything else is as before
- \cup {"pruned_nodes_still_visited_" \o o : o \in {o \in Orders : \E j \in 1..Len(e.prune) : LET x == e.prune[j] IN
+ \cup {"note_pruned_nodes_still_visited_" \o o : o \in {o \in Orders : \E j \in 1..Len(e.prune) : LET x == e.prune[j] IN
             x.o = o /\ x.calls # SelectSeq(exp(o), LAMBDA c : ~(c[1] \in Reach(h, x.cut) /\ PosIn(exp(o), c[1]) > x.k))}}
  \cup {"visitor_raises_" \o o : o \in {o \in Orders : \E k \in 1..Len(e.orders[o].raising) : LET x == e.orders[o].raising[k] IN
             IF x.k \in 1..Len(exp(o)) THEN x.outcome # "raised" \/ x.seen # Stopped(exp(o), x.k) \/ x.again # exp(o)
